@@ -221,5 +221,5 @@ PARTS = [
     Part('every_L', check_construction, enum=enum_all_L, workers={'quick': 8, 'thorough': 16}, exhaustive=False,
          doc='every orbital count of the documented domain up to reach, both build paths'),
     Part('construction', check_construction, strategy=gen_construction, n={'quick': 30, 'thorough': 300}, workers={'quick': 4, 'thorough': 16}, shrink=False),
-    Part('gauge', check_gauge, strategy=gen_gauge, n={'quick': 25, 'thorough': 300}, workers={'quick': 4, 'thorough': 16}, shrink=False),
+    Part('gauge', check_gauge, strategy=gen_gauge, n={'quick': 45, 'thorough': 300}, workers={'quick': 4, 'thorough': 16}, shrink=False),
 ]
